@@ -298,7 +298,13 @@ impl Add<Pattern> for Pattern {
 
     fn add(self, rhs: Pattern) -> Self::Output {
         let regex = self.to_string() + &rhs.to_string();
-        Pattern::from_unanchored_regex(regex.as_str(), &PatternOpts::default()).unwrap()
+        // keep the case sensitivity of the operands, e.g. of a relative pattern given with
+        // `--ignore-case` that gets prefixed with the literal base directory
+        let opts = PatternOpts {
+            case_insensitive: self.anchored_regex.is_case_insensitive()
+                || rhs.anchored_regex.is_case_insensitive(),
+        };
+        Pattern::from_unanchored_regex(regex.as_str(), &opts).unwrap()
     }
 }
 
